@@ -22,7 +22,11 @@ REF_RTOL = 1e-7   # see c01.py: softplus threshold
 def cases(draw, tier):
     na_hi = 3 if tier == "quick" else 4
     nmax = 3 if tier == "quick" else 4
-    case = draw(gen.state_case(types=["density"], n=(1, nmax), nh=(1, 4), na=(1, na_hi), bound=300.0))
+    if draw(st.integers(0, 15)) == 0:
+        case = draw(gen.state_case(types=["density"], n=(4, 6), nh=(1, 6), na=(1, 5), scales=[0.05, 0.5, 2.0], bound=300.0))   # beyond the box
+        case["large"] = True
+    else:
+        case = draw(gen.state_case(types=["density"], n=(1, nmax), nh=(1, 4), na=(1, na_hi), bound=300.0))
     n = case["n"]
     m = draw(st.integers(1, 5))
     case["i1"] = draw(gen.index_list(n, m, m))
